@@ -194,11 +194,13 @@ ParamsT = opaque('TransformParams', is_str=False)
 
 def _box_method(name):
   def call(ex, v, a, kw):
+    bound, ok = bind_call(['index', 'params'], a, kw)
     ex.ghost['bm:n'] = ex.ghost.get('bm:n', 0) + 1
     ex.ghost['bm:method'] = Lit(name)
     ex.ghost['bm:recv'] = v
-    ex.ghost['bm:args'] = PyTuple(list(a))
-    ex.ghost['bm:nokw'] = not kw
+    ex.ghost['bm:ok'] = ok and 'index' in bound and 'params' in bound
+    ex.ghost['bm:index'] = bound.get('index', 0)
+    ex.ghost['bm:params'] = bound.get('params', ex.fresh(ParamsT, 'missing'))
     r = ex.fresh(BoxT, 'r_' + name)
     ex.ghost['bm:result'] = r
     return r
@@ -211,18 +213,21 @@ BoxT.methods = {'add_axis': _box_method('add_axis'), 'remove_axis': _box_method(
 def _map_axis_meta(ex, a, kw):
   """map_axis_meta(fn, tree): fn is applied to every box of the tree (contract of map_axis_meta.<locals>.wrapper below);
   here it is applied to one arbitrary box and what it does is recorded"""
+  bound, ok = bind_call(['fn', 'tree'], a, kw)
+  if not ok or 'fn' not in bound or 'tree' not in bound:
+    raise OutsideSubset('map_axis_meta(fn, tree) expected')
   probe = ex.fresh(BoxT, 'any_box')
   ex.ghost['mam:probe'] = probe
-  ex.ghost['mam:tree'] = ex.deref(a[1])
-  ex.ghost['mam:fn_result'] = ex.call_value(a[0], [probe], {})
+  ex.ghost['mam:tree'] = ex.deref(bound['tree'])
+  ex.ghost['mam:fn_result'] = ex.call_value(bound['fn'], [probe], {})
   return ex.fresh(TreeT2, 'mapped_tree')
 
 
 for _name in ('add_axis', 'remove_axis'):
   function(
     F + '::' + _name, params=[('tree', TreeT2), ('index', INT), ('params', ParamsT)], returns=TreeT2,
-    ensures=["ghost('mam:tree') == tree", "ghost('bm:n') == 1 and ghost('bm:nokw')", f"ghost('bm:method') == '{_name}'", "ghost('bm:recv') == ghost('mam:probe')",
-             "len(ghost('bm:args')) == 2 and ghost('bm:args')[0] == index and ghost('bm:args')[1] == params", "ghost('mam:fn_result') == ghost('bm:result')"],
+    ensures=["ghost('mam:tree') == tree", "ghost('bm:n') == 1 and ghost('bm:ok')", f"ghost('bm:method') == '{_name}'", "ghost('bm:recv') == ghost('mam:probe')",
+             "ghost('bm:index') == index and ghost('bm:params') == params", "ghost('mam:fn_result') == ghost('bm:result')"],
     bindings={'map_axis_meta': Handler('map_axis_meta', _map_axis_meta, 'applies fn to every AxisMetadata node')}, props=('C19', 'C06'))
 
 AnyNode = opaque('TreeNodeOrBox', is_str=False)
